@@ -25,7 +25,7 @@ func genCType(rt *rapid.T, forceValued bool) CType {
 
 func TestC19(t *testing.T) {
 	st := StatsFor("C19")
-	cfg := GenCfg{Depth: 2, Env: false, DD: true}
+	cfg := GenCfg{Depth: 2, Env: false, DD: true, Exotic: true}
 	rapid.Check(t, func(rt *rapid.T) {
 		d := GenDecls(rt, cfg)
 		c := &ProtoCase{}
